@@ -165,7 +165,7 @@ func TestGeneratorRequestsExactlyMissing(t *testing.T) {
 		closed := false
 		defer func() {
 			if !closed {
-				_ = ic.Close()
+				kit.BoundedClose(ic.Close)
 			}
 		}()
 		mk := func(ssrc uint32, withNack bool) *bound {
